@@ -328,6 +328,7 @@ structure ChangeIter where
   pending : Option (List Change)     -- `it.iter` (none = exhausted)
   watchGen : Option Nat              -- none = the initial closedWatchChannel
   closed : Bool := false
+  base : Nat := 0                    -- table revision when the iterator was created (baseRevision)
   deriving Inhabited
 
 structure DB where
@@ -374,9 +375,15 @@ def mergeChanges : List Change → List Change → List Change
     if l.rev ≤ r.rev then l :: mergeChanges ls (r :: rs) else r :: mergeChanges (l :: ls) rs
 termination_by l r => l.length + r.length
 
+/-- the snapshot predates the creation of the iterator (the creating write
+    transaction is not committed yet): `refresh` delivers nothing from it -/
+def ChangeIter.stale (it : ChangeIter) (committed : List TableS) : Bool :=
+  decide ((committed.getD it.table default).rev < it.base)
+
 /-- `changeIterator.refresh(txn)`; `committed`/`current` are committedRoot()/root() of the txn -/
 def ChangeIter.refresh (it : ChangeIter) (committed current : List TableS) (fixedF3 : Bool) : ChangeIter :=
   let tc := committed.getD it.table default
+  if it.stale committed then { it with pending := none, watchGen := some tc.gen } else
   let td := if fixedF3 then tc else current.getD it.table default
   let ups := (tc.revIdx.lowerBound (revKey (it.revision + 1))).map fun (_, o) => ({ obj := o, rev := o.rev, deleted := false } : Change)
   let dels := (td.graveRev.lowerBound (revKey (it.deleteRevision + 1))).map fun (_, o) => ({ obj := o, rev := o.rev, deleted := true } : Change)
